@@ -164,3 +164,68 @@ def r11_into(text):
 
 
 RULES['R11'] = r11_into
+
+
+def r13_return_vec(text):
+    """fn into_iter(self) -> Self::IntoIter { ... E.into_iter() ... }  where every tail/arm value ends in
+    `.into_iter()` on a Vec  =>  the function returns the Vec itself (`-> Vec<Item>`): the trailing
+    `.into_iter()` calls that are in tail position (directly before `,` `}` of a match arm or the end of the
+    body) are dropped.  std: Vec::into_iter yields the elements in order.
+    The new return type is given by the caller through a @sub on the signature."""
+    m = rsx.mask(text)
+    out, last, n = [], 0, 0
+    for mm in re.finditer(r'\.\s*into_iter\(\)(?=\s*(,|\}|$))', m):
+        out.append(text[last:mm.start()])
+        last = mm.end()
+        n += 1
+    out.append(text[last:])
+    return ''.join(out), n
+
+
+def r5_flat_map(text):
+    """E1.into_iter().flat_map(|r| { E2.into_iter().map(|cp| (cp, P)) }).collect::<Vec<T>>()
+         =>  { let mut __v: Vec<T> = Vec::new(); for r in E1.into_iter() { for cp in E2.into_iter() { __v.push((cp, P)); } } __v }
+       E2.into_iter().map(|cp| (cp, P)).collect::<Vec<T>>()
+         =>  { let mut __v: Vec<T> = Vec::new(); for cp in E2.into_iter() { __v.push((cp, P)); } __v }
+       std::iter::once(X).collect::<Vec<T>>()  =>  vec![X]
+    (std semantics of flat_map/map/collect/once: elements in iteration order)."""
+    n = 0
+    ws = r'\s*'
+    pat_fm = re.compile(
+        r'(?P<e1>[A-Za-z_][\w:]*\((?:[^()]|\([^()]*\))*\))' + ws + r'\.' + ws + r'into_iter\(\)' + ws + r'\.' + ws +
+        r'flat_map\(\|(?P<r>\w+)\|' + ws + r'\{' + ws +
+        r'(?P<e2>[A-Za-z_][\w:]*\((?:[^()]|\([^()]*\))*\))' + ws + r'\.' + ws + r'into_iter\(\)' + ws + r'\.' + ws +
+        r'map\(\|(?P<cp>\w+)\|' + ws + r'\((?P=cp),' + ws + r'(?P<p>[\w.]+)\)\)' + ws + r'\}\)' + ws + r'\.' + ws +
+        r'collect::<Vec<(?P<t>\((?:[^()]|\([^()]*\))*\))>>\(\)', re.S)
+    while True:
+        mm = pat_fm.search(text)
+        if not mm:
+            break
+        rep = ('{ let mut __v: Vec<%s> = Vec::new(); for %s in %s.into_iter() { for %s in %s.into_iter() { __v.push((%s, %s)); } } __v }' %
+               (mm.group('t'), mm.group('r'), mm.group('e1'), mm.group('cp'), mm.group('e2'), mm.group('cp'), mm.group('p')))
+        text = text[:mm.start()] + rep + text[mm.end():]
+        n += 1
+    pat_m = re.compile(
+        r'(?P<e2>\b[a-z_]\w*)' + ws + r'\.' + ws + r'into_iter\(\)' + ws + r'\.' + ws +
+        r'map\(\|(?P<cp>\w+)\|' + ws + r'\((?P=cp),' + ws + r'(?P<p>[\w.]+)\)\)' + ws + r'\.' + ws +
+        r'collect::<Vec<(?P<t>\((?:[^()]|\([^()]*\))*\))>>\(\)', re.S)
+    while True:
+        mm = pat_m.search(text)
+        if not mm:
+            break
+        rep = ('{ let mut __v: Vec<%s> = Vec::new(); for %s in %s.into_iter() { __v.push((%s, %s)); } __v }' %
+               (mm.group('t'), mm.group('cp'), mm.group('e2'), mm.group('cp'), mm.group('p')))
+        text = text[:mm.start()] + rep + text[mm.end():]
+        n += 1
+    pat_o = re.compile(r'std::iter::once\((?P<x>\((?:[^()]|\([^()]*\))*\))\)' + ws + r'\.' + ws + r'collect::<Vec<(?P<t>\((?:[^()]|\([^()]*\))*\))>>\(\)', re.S)
+    while True:
+        mm = pat_o.search(text)
+        if not mm:
+            break
+        text = text[:mm.start()] + 'vec![%s]' % mm.group('x') + text[mm.end():]
+        n += 1
+    return text, n
+
+
+RULES['R13'] = r13_return_vec
+RULES['R5'] = r5_flat_map
